@@ -532,6 +532,58 @@ func runCase(c *Case) {
 		o.Ok = true
 		o.Out = runesOf([]byte(strconv.Quote(string(in))))
 		o.NonPr = nonPrint(string(in))
+	case "file":
+		// the file-level entry points must behave as the in-memory ones
+		dir, err := os.MkdirTemp("", "jsonxh")
+		if err != nil {
+			o.Note = "tempdir: " + err.Error()
+			return
+		}
+		defer os.RemoveAll(dir)
+		o.Ok = true
+		var notes []string
+		fn := dir + "/v.jsonx"
+		if c.goVal != nil || c.PV != nil {
+			want, err1 := jsonx.Marshal(c.goVal)
+			err2 := jsonx.WriteFile(fn, c.goVal)
+			got, _ := os.ReadFile(fn)
+			if (err1 == nil) != (err2 == nil) || (err1 == nil && !bytes.Equal(want, got)) {
+				notes = append(notes, "WriteFile differs from Marshal")
+			}
+			var sb bytes.Buffer
+			if err3 := jsonx.Fprint(&sb, c.goVal); (err3 == nil) != (err1 == nil) || (err1 == nil && !bytes.Equal(sb.Bytes(), want)) {
+				notes = append(notes, "Fprint differs from Marshal")
+			}
+			if s, err4 := jsonx.Sprint(c.goVal); (err4 == nil) != (err1 == nil) || (err1 == nil && s != string(want)) {
+				notes = append(notes, "Sprint differs from Marshal")
+			}
+		} else {
+			os.WriteFile(fn, in, 0644)
+		}
+		data, _ := os.ReadFile(fn)
+		var r1, r2, r3 json.RawMessage
+		e1 := jsonx.Unmarshal(data, &r1)
+		e2 := jsonx.ReadFile(fn, &r2)
+		if (e1 == nil) != (e2 == nil) || !bytes.Equal(r1, r2) {
+			notes = append(notes, "ReadFile differs from Unmarshal")
+		}
+		e3 := jsonx.ReadFileMaybeJSON(fn, &r3)
+		if e1 == nil && (e3 != nil || !bytes.Equal(r1, r3)) {
+			notes = append(notes, "ReadFileMaybeJSON differs from Unmarshal on accepted input")
+		}
+		t1, es1 := jsonx.NewDecoder(bytes.NewReader(data)).DecodeSeries(knownMaker(c.Known))
+		t2, es2 := jsonx.ReadSeriesFile(fn, knownMaker(c.Known))
+		if (es1 == nil) != (es2 == nil) || len(t1) != len(t2) || len(es1) != len(es2) {
+			notes = append(notes, "ReadSeriesFile differs from DecodeSeries")
+		} else {
+			for i := range t1 {
+				if t1[i].Type != t2[i].Type || !bytes.Equal(*t1[i].V.(*json.RawMessage), *t2[i].V.(*json.RawMessage)) {
+					notes = append(notes, "ReadSeriesFile differs from DecodeSeries")
+					break
+				}
+			}
+		}
+		o.Note = strings.Join(notes, "; ")
 	case "print":
 		bs, err := jsonx.Marshal(c.goVal)
 		if err != nil {
